@@ -47,9 +47,12 @@ class _Lock:
         self.f.close()
 
 
-def _run_build(cmd, cwd, what, verbose=False):
+def _run_build(cmd, cwd, what, verbose=False, env_extra=None):
     t0 = time.time()
-    p = subprocess.run(cmd, cwd=cwd, env=cargo_env(), stdout=subprocess.PIPE, stderr=subprocess.STDOUT, text=True)
+    env = cargo_env()
+    if env_extra:
+        env.update(env_extra)
+    p = subprocess.run(cmd, cwd=cwd, env=env, stdout=subprocess.PIPE, stderr=subprocess.STDOUT, text=True)
     if p.returncode != 0:
         tail = "\n".join(p.stdout.splitlines()[-40:])
         raise HarnessError(f"{what} failed to build (exit {p.returncode}):\n{tail}")
@@ -60,7 +63,18 @@ def _run_build(cmd, cwd, what, verbose=False):
 def build_harness(verbose=False):
     """Rebuild the harness (path-depends on /repo, so cargo rebuilds when /repo/src changed)."""
     with _Lock(".build.lock"):
-        _run_build(["cargo", "build", "--release", "--offline"], os.path.join(ROOT, "harness"), "harness (sv)", verbose)
+        src = os.path.join(ROOT, "harness")
+        if os.path.realpath(REPO) != "/repo":
+            # developer mode (self-test mutants in a scratch worktree): build a copy of the harness
+            # whose path dependency points at SV_REPO, into SV_TARGET
+            src = os.path.join(TARGET, "harness-src")
+            shutil.rmtree(src, ignore_errors=True)
+            shutil.copytree(os.path.join(ROOT, "harness"), src, ignore=shutil.ignore_patterns("target", ".cargo"))
+            ct = open(os.path.join(src, "Cargo.toml")).read().replace('path = "/repo"', f'path = "{REPO}"')
+            open(os.path.join(src, "Cargo.toml"), "w").write(ct)
+            shutil.copy(os.path.join(REPO, "Cargo.lock"), os.path.join(src, "Cargo.lock"))
+        env_extra = {"CARGO_TARGET_DIR": os.path.join(TARGET, "harness")}
+        _run_build(["cargo", "build", "--release", "--offline"], src, "harness (sv)", verbose, env_extra)
     if not os.path.exists(SV):
         raise HarnessError("harness binary missing after build")
     return SV
@@ -334,6 +348,15 @@ LIB_META = {
             "indentation x line_endings x indent_type x indent_width x widths. Oracle: byte-level line-ending, "
             "indentation and end-of-file rules outside string contents (own lexer masks). Non-trivial as for C01."),
 }
+
+LIB_META.update({
+    "C04": ("exploration", "Pinned and exhaustive: every string body over the 17-symbol escape-relevant alphabet up to length 3 (quick) / 4 "
+            "(thorough) plus lengths up to 5 / 6 over the 8 core symbols, in double-quoted, single-quoted and long-bracket (levels 0-2) "
+            "form when full_moon accepts the literal, in 4 syntactic positions x 4 quote styles x 2 line endings (+ CRLF-written "
+            "programs); numeric spellings of every dialect in 6 contexts; seeded longer random bodies. Oracle: the checker's own string / "
+            "number decoders applied to the k-th literal of input and output. Non-trivial = distinct (batch program, configuration) whose "
+            "output differs from the input; coverage counters give the number of literals judged and rewritten."),
+})
 
 COMMON_ASSUMPTIONS = [
     "full_moon 1.2.0 (the same parser StyLua uses) is trusted as the syntax oracle; the own lexer guards the tokenizer",
